@@ -250,6 +250,8 @@ func init() {
 	addRules("C16", "R-ERRMODEL")
 	addRules("C15", "R-WIRE")
 	addRules("C12", "R-SQRT")
+	addRules("C01", "R-UNITS")
+	addRules("C06", "R-PARITY")
 	addRules("C01", "R-SQRT")
 	addRules("C15", "R-SIBSHAPE", "R-DERIVED", "R-ALLLOOPS", "R-REINIT", "R-FINITE", "R-DECSHAPE", "R-INIT")
 	addRules("C09", "R-GUARD", "R-DECSHAPE", "R-REINIT", "R-RAWFLOAT", "R-GLOBAL", "R-DERIVED", "R-ALLLOOPS", "R-FLAGS", "R-INITORDER", "R-PAIR", "R-WIRECOUNT", "R-FIELDPAIR")
@@ -323,11 +325,11 @@ func init() {
 	only("C01", map[string][]string{"R-MIRROR": {"AdvanceWrap", "CellID.", "cellIDFromFaceIJWrap", "int-shift", "projection", "stToUV", "wrap:"}, "R-CONST": {"Cell).ContainsPoint", "maxXYZtoUVError"}, "R-RANGE": {"CellID)", "CellUnion", "cellunion"}})
 	only("C02", map[string][]string{"R-CONST": predicateConsts, "R-CONSTREL": {"r3.MaxPrec", "stableSign", "maxDeterminantError"}})
 	only("C03", map[string][]string{"R-CONST": {"EdgeCrosser", "intersection", "projection"}, "R-CONSTREL": {"stableSign", "maxDeterminantError", "r3.MaxPrec"}, "R-STAGES": {"RobustSign", "expensiveSign", "exactSign", "bound:", "symbolicallyPerturbedSign", "stage-callers"}, "R-GUARD": {"VertexCrossing"}})
-	only("C05", map[string][]string{"R-MIRROR": {"intersectsLatEdge"}, "R-SPECIAL": {"ordered-interval"}, "R-SQRT": {"intersectsLatEdge"}, "R-CONST": clipConsts, "R-PADDING": {"boundaryApproxIntersects", "normalizeCovering"}, "R-CYCLE": {"coverer", "CellUnionBound"}, "R-PARITY": {"iteratorContainsPoint", "ReferencePoint"}, "R-RANGE": {"ShapeIndexIterator"}, "R-PARTITION": {"Polygon.Invert"}, "R-ACCUM": {"vertex-only-bound"}})
+	only("C05", map[string][]string{"R-MIRROR": {"intersectsLatEdge"}, "R-SPECIAL": {"ordered-interval"}, "R-SQRT": {"intersectsLatEdge"}, "R-CONST": clipConsts, "R-PADDING": {"boundaryApproxIntersects", "normalizeCovering", "replaceCellsWithAncestor"}, "R-CYCLE": {"coverer", "CellUnionBound"}, "R-PARITY": {"iteratorContainsPoint", "ReferencePoint"}, "R-RANGE": {"ShapeIndexIterator"}, "R-PARTITION": {"Polygon.Invert"}, "R-ACCUM": {"vertex-only-bound"}})
 	only("C06", map[string][]string{"R-CONST": clipConsts})
 	only("C07", map[string][]string{"R-ROLES": {"hasCrossing", "(*s2.Loop).", "initOneLoop", "WedgeContains"}, "R-PARITY": {"loopCrosser"}, "R-INIT": {"Invert"}, "R-GUARD": {"findVertex", "getCells"}, "R-NAMEPAIR": {"wedge:", "Loop", "Relation"}})
 	only("C12", map[string][]string{"R-ERRMODEL": {"chord-from-length2-clamped"}, "R-SQRT": {"Cell", "edgeDistance", "uvToST", "expandEndpoint"}})
-	only("C01", map[string][]string{"R-SQRT": {"uvToST", "expandEndpoint"}})
+	only("C01", map[string][]string{"R-SQRT": {"uvToST", "expandEndpoint"}, "R-UNITS": {"latitude-by-asin"}})
 	only("C08", map[string][]string{"R-SQRT": {"Target"}, "R-SPARSEID": {"EdgeQuery", "scan"}, "R-CONSTREL": {"findEdgesInternal", "setMaxError", "IsConservative", "initCovering"}, "R-CYCLE": {"EdgeQuery", "CellUnionBound"}})
 	only("C09", map[string][]string{"R-CONST": {"siTitoPiQi"}, "R-SELFCMP": {"scan", "xyzToFaceSiTi", "stuv", "pointcompression", "s2."}, "R-GUARD": {"xyzToFaceSiTi"}, "R-DECSHAPE": {"readfull", "asByteReader"}})
 	only("C10", map[string][]string{"R-CONST": {"RectBounder", "ExpandForSubregions", "Cell).RectBound", "Cap).AddCap", "poleMinLat"}, "R-PADDING": {"Cap).RectBound", "Cell).RectBound"}, "R-SAMEFACE": {"exact:"}, "R-UNITS": {"longitude-wrap", "latitude-by-asin"}, "R-ROLES": {"initOneLoop"}, "R-PARTITION": {"Polygon.Invert"}, "R-TABLE": {"Cell.RectBound"}, "R-CONSTREL": {"ExpandForSubregions", "RectBounder"}})
